@@ -17,6 +17,7 @@
 #include <pistache/http_header.h>
 #include <pistache/stream.h>
 
+#include <cctype>
 #include <cstring>
 #include <iostream>
 #include <iterator>
@@ -159,12 +160,18 @@ namespace Pistache::Http::Header
                                 "Invalid caching directive, missing delta-seconds");
                         }
 
+                        // strtol() skips leading white space: delta-seconds must
+                        // start with a digit, otherwise the scan would run into
+                        // whatever follows the header value
+                        if (cursor.eof() || !std::isdigit(static_cast<unsigned char>(cursor.current())))
+                        {
+                            throw std::runtime_error(
+                                "Invalid caching directive, malformated delta-seconds");
+                        }
+
                         char* end;
                         const char* beg = cursor.offset();
-                        // @Security: if str is not \0 terminated, there might be a situation
-                        // where strtol can overflow. Double-check that it's harmless and fix
-                        // if not
-                        auto secs = strtol(beg, &end, 10);
+                        auto secs       = strtol(beg, &end, 10);
                         cursor.advance(end - beg);
                         if (!cursor.eof() && cursor.current() != ',')
                         {
@@ -252,7 +259,9 @@ namespace Pistache::Http::Header
             if (hasDelta(d))
             {
                 auto delta = d.delta();
-                if (delta.count() > 0)
+                // a timed directive always carries its delta-seconds: without it
+                // ("max-age") the text could not be parsed back
+                if (delta.count() >= 0)
                 {
                     os << "=" << delta.count();
                 }
